@@ -6,15 +6,18 @@ import pyunigen as _real_pyunigen
 
 from sweetpea._internal.core.generate.tools import unigen as M_unigen
 
-from .world import (enumerate_models, parse_dimacs_lenient, CompletedProcessLike, HarnessCap, _sha1)
+from .world import (enumerate_models, parse_dimacs_lenient, CompletedProcessLike, HarnessCap, _sha1, CMSGEN_CONFL_LIMIT)
 
 
 def _satisfiable(clauses):
     import pycryptosat
-    s = pycryptosat.Solver()
+    s = pycryptosat.Solver(confl_limit=300000)
     for c in clauses:
         s.add_clause(c)
-    return bool(s.solve()[0])
+    sat = s.solve()[0]
+    if sat is None:
+        raise HarnessCap("solver conflict limit")
+    return bool(sat)
 
 
 def ideal_uniform_samples(w, clauses, nvars, sampling_set, num):
@@ -79,10 +82,12 @@ class FakePycmsgen:
                         w.peer_models.append(None)
                         return (False, None)
                 else:
-                    s = _real_pycmsgen.Solver(seed=self.seed)
+                    s = _real_pycmsgen.Solver(seed=self.seed, confl_limit=CMSGEN_CONFL_LIMIT)
                     for c in self.clauses:
                         s.add_clause(c)
                     sat, sol = s.solve()
+                    if sat is None:
+                        raise HarnessCap("sampler conflict limit")
                     if not sat:
                         w.peer_models.append(None)
                         w.log.append(("peer.sample", "pycmsgen", "UNSAT"))
@@ -167,10 +172,12 @@ def fake_sampler_cli(world):
         if "cmsgen" in exe:
             lines = []
             for i in range(num):
-                s = _real_pycmsgen.Solver(seed=seed + i)
+                s = _real_pycmsgen.Solver(seed=seed + i, confl_limit=CMSGEN_CONFL_LIMIT)
                 for c in clauses:
                     s.add_clause(c)
                 sat, sol = s.solve()
+                if sat is None:
+                    raise HarnessCap("sampler conflict limit")
                 if not sat:
                     # what the real binary does on UNSAT is not observable here; be as lenient as the library's
                     # wrapper allows: sample file exists (empty) and stdout carries the message the wrapper looks for
